@@ -25,13 +25,14 @@
  * min,next,next,... / max,prev,prev,... ([-1] if the harness did not dare to
  * walk because the links no longer form a tree -- walking a cyclic structure
  * with the real functions would never return).
- * Every real call runs under alarm(): a call that does not return kills the
- * process with SIGALRM, a wild pointer with SIGSEGV; the driver turns either
+ * Every real call runs under a 5 s CPU-time watchdog: a call that does not
+ * return kills the process with SIGVTALRM, a wild pointer with SIGSEGV; the driver turns either
  * into a "crash" verdict for the command after the last complete trace line. */
 #include <stdio.h>
 #include <stdlib.h>
 #include <string.h>
 #include <unistd.h>
+#include <sys/time.h>
 #include <iv_avl.h>
 #include <iv_list.h>
 
@@ -48,6 +49,17 @@ static int nn;
 static struct iv_avl_tree tree;
 static FILE *out;
 static unsigned long ncompare;
+
+/* CPU-time watchdog (not wall time: a loaded machine must not look like a
+ * hang): SIGVTALRM after `sec` seconds of user CPU time in this process. */
+static void watchdog(int sec)
+{
+	struct itimerval it;
+
+	memset(&it, 0, sizeof(it));
+	it.it_value.tv_sec = sec;
+	setitimer(ITIMER_VIRTUAL, &it, NULL);
+}
 
 static int compare(const struct iv_avl_node *_a, const struct iv_avl_node *_b)
 {
@@ -158,14 +170,14 @@ static void dump_walk(const char *name, int fwd, int ok)
 		fprintf(out, "-1]");
 		return;
 	}
-	alarm(5);
+	watchdog(5);
 	an = fwd ? iv_avl_tree_min(&tree) : iv_avl_tree_max(&tree);
 	while (an != NULL && cnt <= nn) {
 		fprintf(out, cnt ? ",%d" : "%d", id_of(an));
 		cnt++;
 		an = fwd ? iv_avl_tree_next(an) : iv_avl_tree_prev(an);
 	}
-	alarm(0);
+	watchdog(0);
 	fputc(']', out);
 }
 
@@ -314,9 +326,9 @@ int main(int argc, char *argv[])
 				die("bad I", lineno);
 			snapshot();
 			nodes[n - 1].key = key;
-			alarm(5);
+			watchdog(5);
 			ret = iv_avl_tree_insert(&tree, &nodes[n - 1].an);
-			alarm(0);
+			watchdog(0);
 			dump("ins", n, key, ret, changed());
 		} else if (cmd == 'D') {
 			int n = (int)strtol(s, &s, 10);
@@ -324,9 +336,9 @@ int main(int argc, char *argv[])
 			if (nodes == NULL || n < 1 || n > nn)
 				die("bad D", lineno);
 			snapshot();
-			alarm(5);
+			watchdog(5);
 			iv_avl_tree_delete(&tree, &nodes[n - 1].an);
-			alarm(0);
+			watchdog(0);
 			dump("del", n, 0, 0, changed());
 		} else {
 			die("unknown command", lineno);
